@@ -37,6 +37,12 @@ def gen_case(rng, tier, idx):
         c = gen_expiry_history(rng, tier)
         c["drive"] = "direct"
         return c
+    if idx % 20 == 1:
+        from ..direct import gen_deep_auction_history
+
+        c = gen_deep_auction_history(rng, tier)
+        c["drive"] = "direct"
+        return c
     if idx % 10 in (5, 6):
         c = gen_tie_history(rng, tier)
         c["drive"] = "direct"
